@@ -53,7 +53,7 @@ func (c *CallOp) Do(ctx ActionContext) error {
 		ctx.Data().AddValueAt(ap, dom.DefaultNodeDecoderFn(
 			ctx.TemplateEngine().RenderMapLenient(c.Args, snap)),
 		)
-		defer ctx.Data().Remove(ap)
+		defer ctx.Data().RemoveAt(ap)
 		return ctx.Executor().Execute(spec)
 	}
 }
